@@ -118,6 +118,26 @@ def annotation_case(args):
             rc = run.run_isoquant(argv_o + ["--force"], home, os.path.join(d, "other.txt"))
             if rc != 0:
                 errs.append(("run-failed", "overwriting run exit %d" % rc))
+    if cache == "reused-folder":
+        # the output folder holds an earlier run on ANOTHER annotation of the same base name (a later release); the annotation of this run
+        # keeps the time stamp of its release (wget -N, rsync -t, cp -p): it is older than everything the earlier run left behind
+        w2 = the_world()
+        w2["genes"] = [g for g in w2["genes"] if g["id"] != "GA0"]
+        odir = os.path.join(d, "other")
+        os.makedirs(odir, exist_ok=True)
+        other = syn.write_gtf(w2, os.path.join(odir, "annot.gtf"))
+        if rep == "gtf.gz":
+            with open(other, "rb") as fi, gzip.open(other + ".gz", "wb") as fo:
+                fo.write(fi.read())
+            other += ".gz"
+        argv_o = list(argv)
+        argv_o[argv_o.index("--genedb") + 1] = other
+        rc = run.run_isoquant(argv_o, home, os.path.join(d, "other.txt"))
+        if rc != 0:
+            errs.append(("run-failed", "earlier run in the reused folder exit %d" % rc))
+        st = os.stat(ann)
+        os.utime(ann, (st.st_atime - 1000000, st.st_mtime - 1000000))
+        argv = argv + ["--force"]
     rc = run.run_isoquant(argv, home, os.path.join(d, "o.txt"))
     if rc != 0:
         errs.append(("run-failed", "exit %d: %s" % (rc, open(os.path.join(d, "o.txt")).read()[-300:])))
@@ -217,7 +237,7 @@ def run(ctx):
     jobs = []
     for rep in ("gtf", "gtf.gz", "db"):
         for complete in (1, 0):
-            for cache in (("fresh", "cached", "stale", "overwritten") if rep != "db" else ("fresh",)):
+            for cache in (("fresh", "cached", "stale", "overwritten", "reused-folder") if rep != "db" else ("fresh",)):
                 jobs.append((rep, complete, cache, ctx.scratch))
     for style in ("ensembl", "shuffled"):
         for rep in ("gtf", "gtf.gz", "db"):
